@@ -107,8 +107,57 @@ Theorem c05_scale_kernel :
 Proof. exact den_eval_scale. Qed.
 Print Assumptions c05_scale_kernel.
 
+(* composition with the PUBLIC operators.  [kobj] models the objects the library builds (AdditiveKernel /
+   ProductKernel hold a list of sub-kernels, ScaleKernel wraps one), [op_add] / [op_mul] model
+   Kernel.__add__ / Kernel.__mul__ (concatenate the operands, flattening an operand only when it is of the
+   operator's own kind).  For ALL operands - leaves, scaled kernels, sums, products, nested to any depth, on
+   either side - a + b evaluates to the sum and a * b to the product of the operands' values *)
+Theorem c05_operator_add :
+  forall a b o x y,
+    den (@oeval TE (op_add a b) o x y) = (den (@oeval TE a o x y) + den (@oeval TE b o x y))%R.
+Proof. exact den_op_add. Qed.
+Print Assumptions c05_operator_add.
+Theorem c05_operator_mul :
+  forall a b o x y,
+    den (@oeval TE (op_mul a b) o x y) = (den (@oeval TE a o x y) * den (@oeval TE b o x y))%R.
+Proof. exact den_op_mul. Qed.
+Print Assumptions c05_operator_mul.
+(* so a product with a sum as its right operand is NOT the product of all the leaves *)
+Theorem c05_operator_mul_of_add :
+  forall a b c o x y,
+    den (@oeval TE (op_mul a (op_add b c)) o x y)
+    = (den (@oeval TE a o x y) * (den (@oeval TE b o x y) + den (@oeval TE c o x y)))%R.
+Proof. exact den_mul_of_add. Qed.
+Print Assumptions c05_operator_mul_of_add.
+(* explicit n-ary AdditiveKernel / ProductKernel and ScaleKernel objects, any number of parts *)
+Theorem c05_additive_kernel_object :
+  forall ks o x y,
+    den (@oeval TE (OAdd ks) o x y) = fold_right (fun k acc => (den (@oeval TE k o x y) + acc)%R) 0%R ks.
+Proof. exact den_oeval_add. Qed.
+Print Assumptions c05_additive_kernel_object.
+Theorem c05_product_kernel_object :
+  forall ks o x y,
+    den (@oeval TE (OMul ks) o x y) = fold_right (fun k acc => (den (@oeval TE k o x y) * acc)%R) 1%R ks.
+Proof. exact den_oeval_mul. Qed.
+Print Assumptions c05_product_kernel_object.
+Theorem c05_scale_kernel_object :
+  forall s k o x y, den (@oeval TE (OScale s k) o x y) = (Q2R' s * den (@oeval TE k o x y))%R.
+Proof. exact den_oeval_scale. Qed.
+Print Assumptions c05_scale_kernel_object.
+(* the operators only re-associate: no leaf is lost, duplicated or reordered *)
+Theorem c05_operator_leaves :
+  forall a b, oleaves (op_add a b) = oleaves a ++ oleaves b /\ oleaves (op_mul a b) = oleaves a ++ oleaves b.
+Proof. exact oleaves_ops. Qed.
+Print Assumptions c05_operator_leaves.
+
 (* non-vacuity: a concrete interleaved index with n1 = 2, n2 = 3, p = 3 *)
 Example ex_c05_layout :
   @interleaved TR 3 (fun i j a b => INR (1000 * i + 100 * j + 10 * a + b)) (1 * 3 + 2) (2 * 3 + 1)
   = INR 1221.
 Proof. exact (@interleaved_index TR 3 _ 1 2 2 1 (le_n 3) (le_S 2 2 (le_n 2))). Qed.
+
+(* non-vacuity: k1 * (k2 + k3) on constant kernels 2, 3, 5 is 2 * (3 + 5) = 16, not 2 * 3 * 5 *)
+Example ex_c05_mul_of_add :
+  den (@oeval TE (op_mul (OLeaf (KConst (Q2Qc 2))) (op_add (OLeaf (KConst (Q2Qc 3))) (OLeaf (KConst (Q2Qc 5))))) 0 nil nil)
+  = Q2R' (Q2Qc 16).
+Proof. exact ex_mul_of_add. Qed.
